@@ -4,13 +4,15 @@ import hirq, anchors, absx
 
 EXPLANATION = ("V1 positional decode (path-sensitive abstract evaluation with a generic attribute and a generic value): the entry must be "
                "tag 4 constructed, child 0 -> dn (UTF-8), child 1 -> attribute list; per attribute child 0 -> type (UTF-8), child 1 -> "
-               "value set, each value a primitive; V2 flow conservation for the generic value v of the generic attribute: v is tested with "
-               "str::from_utf8 exactly once; when that succeeds the only sink of v is the text vector (as the owned string of those very "
-               "bytes) and the vector is inserted into the text map under the attribute's type; when it fails v is pushed to "
-               "bin_attrs[type] (created on demand), the binary flag is raised there and nowhere else, and the text vector collected so "
-               "far is appended, converted back to bytes, to that same binary entry instead of being inserted into the text map; the two "
-               "maps returned are those two and are distinct. Not decided: 'no value lost or altered' as a statement about contents; "
-               "duplicate attribute types in one entry (a second insert replaces the first).")
+               "value set, each value a primitive; V2 an inductive argument over the values of one attribute: the per-value closure is "
+               "evaluated for a generic value v in every state an earlier value can leave behind (loop-carried state found by fixpoint; "
+               "it must be a boolean that starts false for every attribute), giving four situations (an earlier value was not UTF-8) x "
+               "(v is UTF-8).  v is tested for UTF-8 exactly once; if no value so far failed and v is UTF-8 the only effect is that the "
+               "vector of decoded values is inserted into `attrs` under the attribute type; if v is not UTF-8 it is pushed, unaltered, to "
+               "bin_attrs[type]; and whenever any value failed (earlier or now) the collected text values are appended, as bytes, to "
+               "bin_attrs[type] and nothing is inserted into `attrs`.  The two maps returned are distinct fresh maps. Not decided: 'no "
+               "value lost or altered' as a statement about contents; duplicate attribute types in one entry (a second insert replaces "
+               "the first).")
 TRUSTED = ['std iterator adapters (map, filter_map, collect) preserve order', 'HashMap entry API']
 UNDECIDED = ['content equality of values', 'duplicate attribute types within one entry']
 ASSUMPTIONS = ['a generic element stands for every element of a `for` / iterator chain (the loop body is the same for all)']
@@ -24,7 +26,7 @@ def run(ctx):
     f = ctx.facts
     B = hirq.Body(f, f.body(P))
     ctx.analysed['bodies'].add(P)
-    outs = [o for o in absx.Interp(f, B, unroll=1, for_once=True).run() if o.kind in ('val', 'ret') and o.val[0] == 'struct']
+    outs = [o for o in absx.Interp(f, B, unroll=1, for_once=True, result_combinators=True).run() if o.kind in ('val', 'ret') and o.val[0] == 'struct']
     ctx.floor('V', 'returning paths', len(outs), 2)
     seen = set()
     for o in outs:
@@ -43,14 +45,22 @@ def run(ctx):
                 and not e[1].startswith('alloc::vec::Vec::<T, A>::push') or (e[0] == 'call' and e[1].endswith('Vec::<T, A>::push'))]
         if not muts:
             ctx.fail('V2.attribute-stored', 'generic attribute', loc(B.root), 'on some path an attribute is stored in neither map'); continue
-        # generic value and its UTF-8 test
-        tests = [(a, t) for a, t in o.st.pc if a[0] == 'is' and a[2] == 'Ok' and a[1][0] == 'call' and a[1][1].endswith('str::converts::from_utf8')]
-        if len(tests) != 1:
-            ctx.fail('V2.single-utf8-test', 'value', loc(B.root), 'each value must be tested with str::from_utf8 exactly once (found %d tests)' % len(tests)); continue
+        # ---- V2: the generic value v of the generic attribute, in the four situations of the inductive argument
+        #   E (an earlier value of this attribute was not UTF-8)  x  T (v is UTF-8)
+        def is_utf8_test(a):
+            return a[0] == 'is' and a[2] == 'Ok' and a[1][0] == 'call' and a[1][1].rsplit('::', 1)[-1] == 'from_utf8' and len(a[1][2]) == 1 and a[1][2][0][0] == 'elem'
+        tests = [(a, t) for a, t in o.st.pc if is_utf8_test(a)]
+        if len({a for a, t in tests}) != 1:
+            ctx.fail('V2.single-utf8-test', 'value', loc(B.root), 'each value must be tested for UTF-8 exactly once (found %d tests)' % len(tests)); continue
         test, is_text = tests[0]
         v = test[1][2][0]          # the tested bytes: the generic value element
-        vel = [x for x in absx.leaves(v, lambda x: x[0] == 'elem')]
-        attr_el = [x for x in absx.leaves(v, lambda x: x[0] == 'elem' and x is not vel[0])] if vel else []
+        carried = [e for e in o.st.ev if e[0] == 'loop-carried' and e[3]['k'] == 'Closure']
+        for e in carried:
+            ctx.add('V2.flag-starts-false', 'per attribute', loc(e[3]), e[4] == absx.FALSE,
+                    'state carried from one value to the next must start as `false` for every attribute (starts as %s)' % absx.fmt(e[4]))
+        earlier = any(e[2] == absx.TRUE for e in carried)
+        if any(e[2] not in (absx.TRUE, absx.FALSE) for e in carried):
+            ctx.fail('V2.carried-state', 'non-boolean', loc(B.root), 'state carried across the values of one attribute is not a boolean flag; not decidable here'); continue
         # attribute type: from_utf8 of child 0 of the generic attribute
         def is_type(t):
             ns = [x for x in absx.leaves(t, lambda x: x[0] == 'nth')]
@@ -58,40 +68,42 @@ def run(ctx):
         def values_src_ok(t):
             ns = [x for x in absx.leaves(t, lambda x: x[0] == 'nth' and absx.leaves(x[1], lambda y: y[0] == 'elem'))]
             return any(x[3] == 1 for x in ns) and 'expect_constructed' in calls_in(t) and 'expect_primitive' in calls_in(t)
-        if is_text:
-            seen.add('text')
-            ins = [e for e in muts if e[1].endswith('HashMap::<K, V, S, A>::insert')]
-            others = [e for e in muts if e not in ins]
-            ok = len(ins) == 1 and not others and ins[0][2][0] == amap and is_type(ins[0][2][1])
-            vals = ins[0][2][2] if ins else ('unk',)
-            okv = vals[0] == 'many' and values_src_ok(vals[1]) and vals[3] == ('variant', test[1], 'Ok', 0)
-            ctx.add('V2.text-value-goes-to-text-map', 'utf8', loc(B.root), ok and okv,
-                    'a UTF-8 value must end up (as the string of those bytes) in the vector inserted into `attrs` under the attribute type, and nowhere else: %s' % [e[1].split('::')[-1] for e in muts])
+        def rooted(t, m):
+            return t == m or bool(absx.leaves(t, lambda x: x == m))
+        def keyed(t):
+            """the place t inside bin_attrs is the entry of the attribute's type"""
+            return any(x[1].rsplit('::', 1)[-1] in ('entry', 'get_mut') and len(x[2]) >= 2 and x[2][0] == bmap and is_type(x[2][1]) for x in absx.leaves(t, lambda x: x[0] == 'call'))
+        def same_bytes(t):
+            """t is v itself, or the bytes handed back by the failed String::from_utf8(v)"""
+            # (FromUtf8Error::into_bytes is a transparent conversion in the term domain: the error of String::from_utf8 owns the bytes)
+            return t == v or (t == ('variant', test[1], 'Err', 0) and test[1][1].endswith('string::String::from_utf8'))
+        A = [e for e in muts if rooted(e[2][0], amap)]
+        Bm = [e for e in muts if rooted(e[2][0], bmap)]
+        inserts = [e for e in A if e[1].rsplit('::', 1)[-1] == 'insert']
+        pushes = [e for e in Bm if e[1].rsplit('::', 1)[-1] == 'push']
+        extends = [e for e in Bm if e[1].rsplit('::', 1)[-1] in ('extend', 'append')]
+        def text_vector(t):
+            """the vector of text values: filter_map/map over the value set whose element is the decoded v (or skipped when v is not UTF-8)"""
+            return t[0] == 'many' and values_src_ok(t[1]) and t[3] == (('variant', test[1], 'Ok', 0) if is_text else ('skip',))
+        def as_bytes_of_text_vector(t):
+            return text_vector(t) or (t[0] == 'many' and t[3] == t[2] and text_vector(t[1]))
+        sit = '%s value, %s' % ('UTF-8' if is_text else 'non-UTF-8', 'an earlier value was non-UTF-8' if earlier else 'no earlier non-UTF-8 value')
+        seen.add(('text' if is_text else 'binary', earlier))
+        if is_text and not earlier:
+            ok = len(inserts) == 1 and len(A) == 1 and not Bm and inserts[0][2][0] == amap and is_type(inserts[0][2][1]) and text_vector(inserts[0][2][2])
+            ctx.add('V2.all-text-attribute-goes-to-attrs', sit, loc(B.root), ok,
+                    'the vector of decoded values must be inserted into `attrs` under the attribute type, and nothing into bin_attrs: attrs %s, bin_attrs %s' % (
+                        [e[1].split('::')[-1] for e in A], [e[1].split('::')[-1] for e in Bm]))
+            continue
+        okp = True
+        if not is_text:
+            okp = len(pushes) == 1 and keyed(pushes[0][2][0]) and same_bytes(pushes[0][2][1])
+            ctx.add('V2.binary-value-pushed', sit, loc(B.root), okp, 'a non-UTF-8 value must be pushed, unaltered, to bin_attrs[type]: %s' % [absx.fmt(e[2][1])[:60] for e in pushes])
         else:
-            seen.add('binary')
-            names = [e[1].rsplit('::', 1)[-1] for e in muts]
-            ok = names == ['entry', 'or_insert_with', 'push', 'get_mut', 'extend']
-            if ok:
-                en, oi, pu, gm, ex = muts
-                ok = en[2][0] == bmap and is_type(en[2][1]) and oi[2][0][0] == 'call' and oi[2][0][3] == en[3].get('id') and pu[2][1] == v \
-                    and gm[2][0] == bmap and gm[2][1] == en[2][1] and absx.leaves(ex[2][0], lambda x: x[0] == 'call' and x[3] == gm[3].get('id')) != []
-                conv = ex[2][1]
-                ok = ok and conv[0] == 'many' and conv[3] == conv[2] and conv[1][0] == 'many' and conv[1][3] == ('skip',) and values_src_ok(conv[1][1])
-            ctx.add('V2.binary-value-diverts-attribute', 'non-utf8', loc(B.root), ok,
-                    'a non-UTF-8 value must be pushed to bin_attrs[type] and the text values appended there as bytes (no insert into attrs): %s' % names)
-    for need in ('text', 'binary'):
-        ctx.add('V2.coverage', need, loc(B.root), need in seen, 'no path for a %s value' % need)
-    # the binary flag is raised only where the UTF-8 test failed, and decides the sink
-    flags = [n for n, c in walk(B.root) if n['k'] == 'Assign' and hirq.const_eval(f, n['r']) is True and n['l']['k'] == 'Path']
-    ctx.add('V2.flag-raised-once', 'any_binary', loc(B.root), len(flags) == 1, 'the binary flag is set at %d sites' % len(flags))
-    ifs = [n for n, c in walk(B.root) if n['k'] == 'If' and flags and hirq.local_of(n['cond']) == hirq.local_of(flags[0]['l'])]
-    ok = len(ifs) == 1 and any(x['k'] == 'MethodCall' and x['name'] == 'extend' for x, _ in walk(ifs[0]['then'])) and ifs[0].get('els') is not None \
-        and any(x['k'] == 'MethodCall' and x['name'] == 'insert' for x, _ in walk(ifs[0]['els']))
-    ctx.add('V2.flag-selects-sink', 'any_binary', loc(B.root), ok, 'the binary flag does not select between bin_attrs (extend) and attrs (insert)')
-    # flag must be initialised false inside the per-attribute loop
-    if flags:
-        d = B.defs.get(hirq.local_of(flags[0]['l']))
-        fors = [n for n, c in walk(B.root) if n['k'] == 'For']
-        inside = d is not None and d['node'] is not None and any(any(s is d['node'] for s in blk['stmts']) for fr in fors for blk, _ in walk(fr['body']) if blk['k'] == 'Block')
-        ctx.add('V2.flag-per-attribute', 'any_binary', loc(B.root), inside and d['src'] is not None and hirq.const_eval(f, d['src']) is False,
-                'the binary flag must start false for every attribute')
+            ctx.add('V2.text-value-not-pushed-twice', sit, loc(B.root), not pushes, 'a UTF-8 value reaches bin_attrs only through the text vector')
+        okx = len(extends) == 1 and keyed(extends[0][2][0]) and as_bytes_of_text_vector(extends[0][2][1])
+        ctx.add('V2.mixed-attribute-moves-text-to-bin_attrs', sit, loc(B.root), okx and not A,
+                'once any value of the attribute is not UTF-8, the text values collected must be appended (as bytes) to bin_attrs[type] and the attribute must not appear in `attrs`: attrs %s, bin_attrs %s' % (
+                    [e[1].split('::')[-1] for e in A], [e[1].split('::')[-1] for e in Bm]))
+    for need in (('text', False), ('binary', False), ('text', True), ('binary', True)):
+        ctx.add('V2.coverage', '%s value, earlier binary=%s' % need, loc(B.root), need in seen, 'no path for this situation')
